@@ -241,6 +241,29 @@ pub fn bias_specials(r: &mut StdRng) -> Vec<Message> {
             out.push(m);
         }
     }
+    // lists filled to (just below / exactly) the container capacity of 390 entries
+    for (num, table) in [(1059u16, SSR_GPS.to_vec()), (1065u16, SSR_GLO.to_vec())] {
+        for total in [388usize, 389, 390] {
+            for per in [30usize, 13, 12, 10] {
+                let maxsat = if num == 1059 { 64 } else { 32 };
+                let mut e = vec![];
+                let mut s = 0usize;
+                while e.len() < total && s < maxsat {
+                    for j in 0..per {
+                        if e.len() < total {
+                            e.push((s as u8, table[j % table.len()].0, table[j % table.len()].1, ((s * 7 + j) as f32 - 100.0) * 0.01));
+                        }
+                    }
+                    s += 1;
+                }
+                if e.len() == total {
+                    if let Ok(m) = bias_message(r, num, &e) {
+                        out.push(m);
+                    }
+                }
+            }
+        }
+    }
     // out-of-range satellite, unrecognised signal
     for e in [vec![(64u8, 1u8, 'C', 0.0f32)], vec![(200, 1, 'C', 0.0)], vec![(3, 9, 'Z', 0.5)]] {
         if let Ok(m) = bias_message(r, 1059, &e) {
